@@ -1,13 +1,143 @@
-(* Properties/C16.v — Every class the factories generate satisfies the framework's own contracts. *)
+(* Properties/C16.v — Every class the factories generate satisfies the framework's own contracts.
+
+   Configurations: the closed grammar `cfg` of Model/Contracts.v (base component | slice | sweep |
+   node-level context_key | rename | delete | template) with UNBOUNDED nesting of slice / sweep.
+   `gen the_tables c` = (metadata view of type(node), metadata view of type(node.processor)), or
+   None when the factories raise.  `rules` = the RULES table read from expectations.py.
+   Reflection-level rules (PReflect: SVA001-012, 102, 241, 250) are not expressible on metadata
+   records; they are checked on the real classes by the correspondence run only.               *)
 From Coq Require Import List String Bool.
 From SV Require Import Model.Contracts Gen.ContractsGen Proofs.Contracts.
 Import ListNotations.
 Local Open Scope string_scope.
 
+(* Facts read from /repo on this run. *)
 Lemma gen_translated : translation_failed = false.
 Proof. reflexivity. Qed.
 Lemma gen_rules : rules = spec_rules.
 Proof. reflexivity. Qed.
 Lemma gen_tables : the_tables = spec_tables the_flags.
 Proof. reflexivity. Qed.
-Print Assumptions gen_rules.
+Lemma gen_validate_runs_all_rules : validate_runs_all_rules = true.
+Proof. reflexivity. Qed.
+
+(* ---- (1) no error-level diagnostic on any generated class -------------------------------- *)
+
+(* full statement; its premise is the generated fact "sweep wrappers do not repeat inherited keys" *)
+Theorem C16_generated_pass_full :
+  sweep_dedup the_flags = true ->
+  forall c n p, bases_ok c = true -> gen the_tables c = Some (n, p) ->
+  errors (run_rules rules n) = [] /\ errors (run_rules rules p) = [].
+Proof.
+  intros D c n p B G. rewrite gen_rules. rewrite gen_tables in G.
+  exact (generated_pass the_flags c n p B (or_introl D) G).
+Qed.
+
+(* with the fact false (the current tree) the full statement is refuted by a nested sweep *)
+Theorem C16_generated_pass_refuted_when :
+  sweep_dedup the_flags = false ->
+  exists c n p, bases_ok c = true /\ valid c = true /\ gen the_tables c = Some (n, p) /\
+                errors (run_rules rules n) <> [].
+Proof. rewrite gen_rules, gen_tables. exact (generated_pass_refuted the_flags). Qed.
+
+(* unconditional: every configuration in which no sweep re-declares a "<var>_values" key that the
+   swept class already creates (in particular: every configuration with at most one sweep on a
+   base that does not itself declare such a key, and all nestings with distinct variable names) *)
+Theorem C16_generated_pass_partial :
+  forall c n p, bases_ok c = true -> fresh the_flags c = true -> gen the_tables c = Some (n, p) ->
+  errors (run_rules rules n) = [] /\ errors (run_rules rules p) = [].
+Proof.
+  intros c n p B F G. rewrite gen_rules. rewrite gen_tables in G.
+  exact (generated_pass the_flags c n p B (or_intror F) G).
+Qed.
+
+(* ---- (2) the node wrapper mirrors the processor it wraps ---------------------------------- *)
+
+Theorem C16_wrapper_mirrors_full :
+  probe_mirror the_flags = true ->
+  forall c n p, gen the_tables c = Some (n, p) ->
+  exists p0, proc the_flags (fst (strip_key c)) = Some p0 /\ mirrors (pk p0) (snd (strip_key c)) n p.
+Proof.
+  intros M c n p G. rewrite gen_tables in G.
+  destruct (wrapper_mirrors_when the_flags c n p G) as (p0 & P & H). exists p0. auto.
+Qed.
+
+Theorem C16_wrapper_mirrors_refuted_when :
+  probe_mirror the_flags = false ->
+  exists c n p p0, valid c = true /\ gen the_tables c = Some (n, p) /\
+    proc the_flags (fst (strip_key c)) = Some p0 /\ ~ mirrors (pk p0) (snd (strip_key c)) n p.
+Proof. rewrite gen_tables. exact (wrapper_mirrors_refuted the_flags). Qed.
+
+(* unconditional: everything except probe nodes whose processor declares created keys of its own *)
+Theorem C16_wrapper_mirrors_partial :
+  forall c n p, gen the_tables c = Some (n, p) ->
+  exists p0, proc the_flags (fst (strip_key c)) = Some p0 /\
+    (pk p0 <> KDataProbe \/ pcreated p0 = [] -> mirrors (pk p0) (snd (strip_key c)) n p).
+Proof.
+  intros c n p G. rewrite gen_tables in G.
+  destruct (wrapper_mirrors_when the_flags c n p G) as (p0 & P & H). exists p0. split; auto.
+Qed.
+
+(* ---- (3) `valid` is exactly the domain of the generator ------------------------------------ *)
+
+Theorem C16_gen_total_on_valid :
+  forall c, valid c = true -> exists n p, gen the_tables c = Some (n, p).
+Proof. rewrite gen_tables. exact (gen_total_on_valid the_flags). Qed.
+
+Theorem C16_gen_only_on_valid :
+  forall c n p, gen the_tables c = Some (n, p) -> valid c = true.
+Proof. rewrite gen_tables. exact (gen_only_on_valid the_flags). Qed.
+
+(* ---- non-vacuity: nested configurations that satisfy every hypothesis ---------------------- *)
+
+Definition src_F : pinfo := mkP KDataSource "Src" "" "F" [("value", false)] [] [] [] false.
+Definition sum_CF : pinfo := mkP KDataOperation "Sum" "C" "F" [] ["w"] [] [] false.
+
+(* sliced swept probe bound to a context key *)
+Definition ex_sliced_probe : cfg :=
+  WithContextKey (Slice (Sweep (Base probe_F) [("t", None); ("u", Some "seq")] [] None) "C") "k".
+(* sweep of a slice of a sweep (distinct variables) of a collection operation that writes a key *)
+Definition ex_deep_op : cfg :=
+  Sweep (Slice (Sweep (Base sum_CF) [("t", None)] [] (Some ("C", true))) "C") [("u", None)] [] (Some ("D", true)).
+(* swept source whose parameter is computed by an expression *)
+Definition ex_swept_source : cfg := Sweep (Base src_F) [("t", None)] ["value"] (Some ("C", true)).
+
+Example ex_hypotheses_satisfiable :
+  forallb (fun c => bases_ok c && fresh the_flags c && valid c) [ex_sliced_probe; ex_deep_op; ex_swept_source] = true.
+Proof. reflexivity. Qed.
+
+Example ex_generates_and_passes :
+  forallb (fun c => match gen the_tables c with
+                    | Some (n, p) => is_nil (errors (run_rules rules n)) && is_nil (errors (run_rules rules p))
+                    | None => false end) [ex_sliced_probe; ex_deep_op; ex_swept_source] = true.
+Proof. vm_compute. reflexivity. Qed.
+
+Example ex_deep_op_created :
+  option_map (fun np => v_created (fst np)) (gen the_tables ex_deep_op) = Some (Some ["u_values"; "t_values"; "w"]).
+Proof. vm_compute. reflexivity. Qed.
+
+Example ex_warnings_only_on_adapters :
+  option_map (fun np => run_rules rules (snd np)) (gen the_tables ex_swept_source) = Some [("SVA201", SWarn)].
+Proof. vm_compute. reflexivity. Qed.
+
+(* the error rules are not vacuous: a view with a repeated injected key is rejected *)
+Example ex_rules_reject :
+  errors (run_rules rules (mkV [("class_name", MS "X"); ("docstring", MS ""); ("component_type", MS "DataOperationNode");
+                                ("injected_context_keys", ML ["a"; "a"])] None None None None None ["DataOperationNode"] None None))
+  = [("SVA104", SError)].
+Proof. vm_compute. reflexivity. Qed.
+
+(* invalid configurations do not generate *)
+Example ex_invalid :
+  map (gen the_tables) [Slice (Base src_F) "C"; Slice (Base sum_CF) "C"; Base probe_F;
+                        WithContextKey (Base op_FF) "k"; Rename "1a" "b"; Template "o" []] = [None; None; None; None; None; None].
+Proof. vm_compute. reflexivity. Qed.
+
+Print Assumptions C16_generated_pass_full.
+Print Assumptions C16_generated_pass_refuted_when.
+Print Assumptions C16_generated_pass_partial.
+Print Assumptions C16_wrapper_mirrors_full.
+Print Assumptions C16_wrapper_mirrors_refuted_when.
+Print Assumptions C16_wrapper_mirrors_partial.
+Print Assumptions C16_gen_total_on_valid.
+Print Assumptions C16_gen_only_on_valid.
